@@ -40,7 +40,7 @@ ConnCases ==
   \cup {Dflt(<<"MFAPollWait", t>>) : t \in {"Success", "Denied"}}
 
 FbCases ==
-  {x \in [kind : {"fb"}, user : BOOLEAN, shadow : BOOLEAN, hash : PamHashKinds, exp : {"none", "future", "now", "past"},
+  {x \in [kind : {"fb"}, user : BOOLEAN, shadow : BOOLEAN, hash : PamHashKinds, exp : PamExpKinds,
           typed : {"right", "wrong", "none", "err"}, ufp : BOOLEAN, iuu : BOOLEAN,
           authtok : {"right", "wrong", "none", "err"}] :
      /\ (~x.ufp => x.authtok = "none")
